@@ -16,6 +16,13 @@ def itemList (v : Json) : Except String (List (Key × ObjId)) := do
     let a ← x.getArr?
     pure (⟨← a[0]!.getStr?, ← a[1]!.getBool?⟩, ← a[2]!.getNat?))
 
+def clsOf (j : Json) : Except String (Probe String) := do
+  match j.getObjVal? "cls" with
+  | .error _ => do
+    let t ← getStr j "ty"
+    pure (.ok t)
+  | .ok _ => probeOf j "cls" (fun v => v.getStr?)
+
 def parseObj (j : Json) : Except String PyObj := do
   pure { tyName := ← getStr j "ty", tyRepr := ← getStr j "tyrepr", isDictExact := ← getBool j "dict",
          str := ← getOptStr j "str", placeholder := ← getStr j "ph",
@@ -24,9 +31,7 @@ def parseObj (j : Json) : Except String PyObj := do
          seq := ← probeOf j "seq" natList, isExc := ← probeOf j "isexc" (fun v => v.getBool?),
          excArgs := ← probeOf j "args" natList, hasDict := ← probeOf j "hasdict" (fun v => v.getBool?),
          attrs := ← probeOf j "attrs" itemList,
-         clsName := ← (match j.getObjVal? "cls" with
-           | .error _ => pure (.ok (← getStr j "ty"))
-           | .ok _ => probeOf j "cls" (fun v => v.getStr?)) }
+         clsName := ← clsOf j }
 
 def parseAction (j : Json) : Except String ActionIn := do
   let l ← j.getObjVal? "limits"
